@@ -162,3 +162,12 @@ Check reset_after_any_load_is_fresh :
                                    (world_init (w_story (snd (load_state sp ssw w j))) seed
                                                (w_fuel (snd (load_state sp ssw w j))))).
 Print Assumptions reset_after_any_load_is_fresh.
+
+(* T-gen tie of the load theorems: Story::load_state is the async guard followed by StoryState::load_json and touches
+   nothing else of the Story — regenerated from the sources on every run *)
+From Ink.Gen Require Import EngineGen.
+From Ink.Shell Require Import StructureTie.
+Theorem load_state_hands_the_text_to_the_state_only : load_writes_state_only = true.
+Proof. exact StructureTie.now_load_writes_state_only. Qed.
+Check load_state_hands_the_text_to_the_state_only : load_writes_state_only = true.
+Print Assumptions load_state_hands_the_text_to_the_state_only.
